@@ -8,3 +8,108 @@ package sev
 //@   assigns nothing
 //@   ghostset snpImage = val(uefi)
 //@   ensures err == nil ==> result != nil && fresh(result)
+
+// PAGE_INFO (SNP ABI, SNP_LAUNCH_UPDATE): DIGEST_CUR 0x00..0x30, CONTENTS 0x30..0x60, LENGTH u16 0x60, PAGE_TYPE 0x62,
+// IMI_PAGE 0x63, reserved 0x64, VMPL1/2/3_PERMS 0x65..0x67, GPA u64 0x68; 0x70 bytes.
+//@ func (*PageInfo).Put
+//@   requires p != nil
+//@   assigns data[*]
+//@   sweep[C08,C18]
+//@   ensures[C18,C04] len(data) < 112 <==> err != nil
+//@   ensures[C18,C04] err == nil ==> forall(i, 0 <= i && i < 48 ==> bytesAt(data, i) == p.digestCur[i] && bytesAt(data, 48 + i) == p.contents[i])
+//@   ensures[C18,C04] err == nil ==> le16(data, 96) == p.length && bytesAt(data, 98) == p.pageType && bytesAt(data, 99) == p.imi && bytesAt(data, 100) == 0 && bytesAt(data, 101) == p.vmpl1Perms && bytesAt(data, 102) == p.vmpl2Perms && bytesAt(data, 103) == p.vmpl3Perms && le64(data, 104) == p.gpa
+//@   ensures[C18] forall(i, 112 <= i && i < len(data) ==> bytesAt(data, i) == old(bytesAt(data, i)))
+//@   ensures[C18] err != nil ==> forall(i, 0 <= i && i < len(data) ==> bytesAt(data, i) == old(bytesAt(data, i)))
+
+//@ func (*PageInfo).Bytes
+//@   requires p != nil
+//@   assigns nothing
+//@   sweep[C08,C18]
+//@   alloc 112
+//@   ensures[C18,C04] err == nil && len(result0) == 112 && fresh(result0)
+//@   ensures[C18,C04] forall(i, 0 <= i && i < 48 ==> bytesAt(result0, i) == p.digestCur[i] && bytesAt(result0, 48 + i) == p.contents[i])
+//@   ensures[C18,C04] le16(result0, 96) == p.length && bytesAt(result0, 98) == p.pageType && bytesAt(result0, 99) == p.imi && bytesAt(result0, 100) == 0 && bytesAt(result0, 101) == p.vmpl1Perms && bytesAt(result0, 102) == p.vmpl2Perms && bytesAt(result0, 103) == p.vmpl3Perms && le64(result0, 104) == p.gpa
+
+// VMCB segment register: u16 selector, u16 attrib, u32 limit, u64 base; selector and attrib must fit 16 bits.
+//@ func putVmcbSeg
+//@   requires v != nil
+//@   assigns data[*]
+//@   sweep[C08,C18]
+//@   ensures[C18] err == nil <==> len(data) >= 16 && v.Selector < 65536 && v.Attrib < 65536
+//@   ensures[C18] err == nil ==> segAt(data, 0, v)
+//@   ensures[C18] forall(i, 16 <= i && i < len(data) ==> bytesAt(data, i) == old(bytesAt(data, i)))
+
+//@ func checkMbz
+//@   requires 0 <= lo && lo <= hi
+//@   assigns nothing
+//@   sweep[C08,C18]
+//@   ensures[C18] err == nil <==> len(data) == hi - lo && forall(i, 0 <= i && i < len(data) ==> bytesAt(data, i) == 0)
+//@   loop 1 invariant forall(i, 0 <= i && i <= rangeindex ==> bytesAt(data, i) == 0)
+
+//@ func doReserved
+//@   requires 0 <= lo && lo <= hi && ref(protobytes) != ref(out)
+//@   assigns out[lo:hi][*]
+//@   sweep[C08,C18]
+//@   ensures[C18] err == nil <==> len(out) >= hi && (len(protobytes) == 0 || (len(protobytes) == hi - lo && forall(i, 0 <= i && i < len(protobytes) ==> bytesAt(protobytes, i) == 0)))
+//@   ensures[C18] err == nil ==> forall(i, lo <= i && i < hi ==> bytesAt(out, i) == 0)
+//@   ensures[C18] err != nil ==> unchanged(content(out))
+//@   loop 1 invariant lo <= i && i <= hi && unchanged(content(protobytes)) && forall(k, lo <= k && k < i ==> bytesAt(out, k) == 0)
+//@   loop 1 decreases[C08] hi - i
+
+//@ func doReserved64
+//@   requires 0 <= lo && lo <= hi && hi <= len(data)
+//@   assigns data[lo:hi][*]
+//@   sweep[C08,C18]
+//@   ensures[C18] err == nil <==> hi - lo == 8 && proto64 == 0
+//@   ensures[C18] err == nil ==> le64(data, lo) == 0
+//@   ensures[C18] err != nil ==> unchanged(content(data))
+
+// VMSA (AMD64 APM vol. 2, Table B-4, SEV-ES save area; 0x670 bytes are produced): ten 16-byte segment registers from 0,
+// CPL u8 at 0xCB, PKRU u32 at 0x2E8, the u64 registers at their table offsets, must-be-zero ranges written as zero and
+// refused unless absent or exactly their documented size of zero bytes; reserved_8 (0x300) and reserved_9 (0x320) are
+// u64 that must be zero; everything from 0x3F0 to 0x670 is zero at launch. Segments that are absent are created as zero.
+// (getOrCreateVmcbSeg takes the address of a pointer field; it is inlined at its ten call sites.)
+//@ func PutVmsa
+//@   requires v != nil
+//@   requires ref(v.Reserved_1) != ref(data) && ref(v.Reserved_2) != ref(data) && ref(v.Reserved_3) != ref(data) && ref(v.Reserved_4) != ref(data) && ref(v.Reserved_5) != ref(data) && ref(v.Reserved_6) != ref(data) && ref(v.Reserved_7) != ref(data) && ref(v.Reserved_7A) != ref(data) && ref(v.Reserved_10) != ref(data) && ref(v.Reserved_11) != ref(data)
+//@   assigns data[*], v.Es, v.Cs, v.Ss, v.Ds, v.Fs, v.Gs, v.Gdtr, v.Ldtr, v.Idtr, v.Tr
+//@   sweep[C08,C18]
+//@   ensures[C18] len(data) < 1648 ==> err != nil
+//@   ensures[C18] err == nil ==> len(data) >= 1648 && segFits(old(v.Es)) && segFits(old(v.Cs)) && segFits(old(v.Ss)) && segFits(old(v.Ds)) && segFits(old(v.Fs)) && segFits(old(v.Gs)) && segFits(old(v.Gdtr)) && segFits(old(v.Ldtr)) && segFits(old(v.Idtr)) && segFits(old(v.Tr)) && v.Cpl < 256
+//@   ensures[C18] err == nil ==> mbzOK(v.Reserved_1, 43) && mbzOK(v.Reserved_2, 4) && mbzOK(v.Reserved_3, 104) && mbzOK(v.Reserved_4, 88) && mbzOK(v.Reserved_5, 24)
+//@   ensures[C18] err == nil ==> mbzOK(v.Reserved_6, 32) && mbzOK(v.Reserved_7, 80) && mbzOK(v.Reserved_7A, 20) && mbzOK(v.Reserved_10, 16) && mbzOK(v.Reserved_11, 48)
+//@   ensures[C18] err == nil ==> v.Reserved_8 == 0 && v.Reserved_9 == 0
+//@   ensures[C18] len(data) >= 1648 && segFits(old(v.Es)) && segFits(old(v.Cs)) && segFits(old(v.Ss)) && segFits(old(v.Ds)) && segFits(old(v.Fs)) && segFits(old(v.Gs)) && segFits(old(v.Gdtr)) && segFits(old(v.Ldtr)) && segFits(old(v.Idtr)) && segFits(old(v.Tr)) && v.Cpl < 256 && mbzOK(v.Reserved_1, 43) && mbzOK(v.Reserved_2, 4) && mbzOK(v.Reserved_3, 104) && mbzOK(v.Reserved_4, 88) && mbzOK(v.Reserved_5, 24) && mbzOK(v.Reserved_6, 32) && mbzOK(v.Reserved_7, 80) && mbzOK(v.Reserved_7A, 20) && mbzOK(v.Reserved_10, 16) && mbzOK(v.Reserved_11, 48) && v.Reserved_8 == 0 && v.Reserved_9 == 0 ==> err == nil
+//@   ensures[C18,C04] err == nil ==> segAt(data, 0, v.Es)
+//@   ensures[C18,C04] err == nil ==> segAt(data, 16, v.Cs)
+//@   ensures[C18,C04] err == nil ==> segAt(data, 32, v.Ss)
+//@   ensures[C18,C04] err == nil ==> segAt(data, 48, v.Ds)
+//@   ensures[C18,C04] err == nil ==> segAt(data, 64, v.Fs)
+//@   ensures[C18,C04] err == nil ==> segAt(data, 80, v.Gs)
+//@   ensures[C18,C04] err == nil ==> segAt(data, 96, v.Gdtr)
+//@   ensures[C18,C04] err == nil ==> segAt(data, 112, v.Ldtr)
+//@   ensures[C18,C04] err == nil ==> segAt(data, 128, v.Idtr)
+//@   ensures[C18,C04] err == nil ==> segAt(data, 144, v.Tr)
+//@   ensures[C18] err == nil ==> (old(v.Es) != nil ==> v.Es == old(v.Es)) && (old(v.Cs) != nil ==> v.Cs == old(v.Cs)) && (old(v.Ss) != nil ==> v.Ss == old(v.Ss)) && (old(v.Ds) != nil ==> v.Ds == old(v.Ds)) && (old(v.Fs) != nil ==> v.Fs == old(v.Fs)) && (old(v.Gs) != nil ==> v.Gs == old(v.Gs)) && (old(v.Gdtr) != nil ==> v.Gdtr == old(v.Gdtr)) && (old(v.Ldtr) != nil ==> v.Ldtr == old(v.Ldtr)) && (old(v.Idtr) != nil ==> v.Idtr == old(v.Idtr)) && (old(v.Tr) != nil ==> v.Tr == old(v.Tr))
+//@   ensures[C18,C04] err == nil ==> bytesAt(data, 203) == v.Cpl && le32(data, 744) == v.Pkru && le64(data, 768) == 0 && le64(data, 800) == 0
+//@   ensures[C18,C04] err == nil ==> le64(data, 208) == v.Efer && le64(data, 320) == v.Xss && le64(data, 328) == v.Cr4 && le64(data, 336) == v.Cr3 && le64(data, 344) == v.Cr0 && le64(data, 352) == v.Dr7 && le64(data, 360) == v.Dr6 && le64(data, 368) == v.Rflags
+//@   ensures[C18,C04] err == nil ==> le64(data, 376) == v.Rip && le64(data, 472) == v.Rsp && le64(data, 504) == v.Rax && le64(data, 512) == v.Star && le64(data, 520) == v.Lstar && le64(data, 528) == v.Cstar && le64(data, 536) == v.Sfmask && le64(data, 544) == v.KernelGsBase
+//@   ensures[C18,C04] err == nil ==> le64(data, 552) == v.SysenterCs && le64(data, 560) == v.SysenterEsp && le64(data, 568) == v.SysenterEip && le64(data, 576) == v.Cr2 && le64(data, 616) == v.GPat && le64(data, 624) == v.Dbgctl && le64(data, 632) == v.BrFrom && le64(data, 640) == v.BrTo
+//@   ensures[C18,C04] err == nil ==> le64(data, 648) == v.LastExcpFrom && le64(data, 656) == v.LastExcpTo && le64(data, 776) == v.Rcx && le64(data, 784) == v.Rdx && le64(data, 792) == v.Rbx && le64(data, 808) == v.Rbp && le64(data, 816) == v.Rsi && le64(data, 824) == v.Rdi
+//@   ensures[C18,C04] err == nil ==> le64(data, 832) == v.R8 && le64(data, 840) == v.R9 && le64(data, 848) == v.R10 && le64(data, 856) == v.R11 && le64(data, 864) == v.R12 && le64(data, 872) == v.R13 && le64(data, 880) == v.R14 && le64(data, 888) == v.R15
+//@   ensures[C18,C04] err == nil ==> le64(data, 912) == v.SwExitCode && le64(data, 920) == v.SwExitInfo_1 && le64(data, 928) == v.SwExitInfo_2 && le64(data, 936) == v.SwScratch && le64(data, 944) == v.SevFeatures && le64(data, 1000) == v.Xcr0
+//@   ensures[C18,C04] err == nil ==> forall(i, 160 <= i && i < 203 ==> bytesAt(data, i) == 0)
+//@   ensures[C18,C04] err == nil ==> forall(i, 204 <= i && i < 208 ==> bytesAt(data, i) == 0)
+//@   ensures[C18,C04] err == nil ==> forall(i, 216 <= i && i < 320 ==> bytesAt(data, i) == 0)
+//@   ensures[C18,C04] err == nil ==> forall(i, 384 <= i && i < 472 ==> bytesAt(data, i) == 0)
+//@   ensures[C18,C04] err == nil ==> forall(i, 480 <= i && i < 504 ==> bytesAt(data, i) == 0)
+//@   ensures[C18,C04] err == nil ==> forall(i, 584 <= i && i < 616 ==> bytesAt(data, i) == 0)
+//@   ensures[C18,C04] err == nil ==> forall(i, 664 <= i && i < 744 ==> bytesAt(data, i) == 0)
+//@   ensures[C18,C04] err == nil ==> forall(i, 748 <= i && i < 768 ==> bytesAt(data, i) == 0)
+//@   ensures[C18,C04] err == nil ==> forall(i, 896 <= i && i < 912 ==> bytesAt(data, i) == 0)
+//@   ensures[C18,C04] err == nil ==> forall(i, 952 <= i && i < 1000 ==> bytesAt(data, i) == 0)
+//@   ensures[C18,C04] err == nil ==> forall(i, 1008 <= i && i < 1648 ==> bytesAt(data, i) == 0)
+//@   ensures[C18] forall(i, 1648 <= i && i < len(data) ==> bytesAt(data, i) == old(bytesAt(data, i)))
+//@   loop 1 assigns data[1008:1648][*]
+//@   loop 1 invariant 1008 <= i && i <= 1648 && forall(k, 1008 <= k && k < i ==> bytesAt(data, k) == 0)
+//@   loop 1 decreases[C08] 1648 - i
